@@ -193,6 +193,32 @@ def gen_pair_linear(rng):
     return gd, gs, gen_spec(rng, NYd, NXd, allow_zero=False), gen_spec(rng, NYs, NXs)
 
 
+def gen_pair_general(rng, gi, exact_rot=True):
+    """pairs that take the general path: rotated same-CRS source or EPSG:4326 source; every combination of
+    resolution signs (north-up, mirrored in x, in y, in both); overlapping, near and far apart"""
+    NYd, NXd, NYs, NXs = (rng.randint(1, 6) for _ in range(4))
+    sxd, syd = rng.choice([(1, -1), (1, -1), (-1, -1), (-1, -1), (1, 1), (-1, 1)])
+    gd = (NYd, NXd, CRS, sxd * 512.0, 0.0, float(rng.randint(-20, 20) * 256), 0.0, syd * 512.0, float(rng.randint(-20, 20) * 256))
+    cx, cy = gd[5] + sxd * rng.uniform(-1, NXd + 1) * 512, gd[8] + syd * rng.uniform(-1, NYd + 1) * 512
+    if rng.random() < 0.3:
+        cx += rng.choice([-1, 1]) * rng.choice([20000, 50000, 3000000])        # far away: disjoint
+    if gi % 2 == 0:
+        if exact_rot:
+            c, s_ = rng.choice([(F(3, 5), F(4, 5)), (F(4, 5), F(-3, 5)), (F(12, 13), F(5, 13))])
+        else:
+            c, s_ = rng.choice([(0.6, 0.8), (0.8, -0.6), (12 / 13, 5 / 13)])
+        m = rng.choice([1, 1, -1])
+        gs = (NYs, NXs, CRS, float(c * 256), float(-s_ * 256) * m, float(round(cx)), float(s_ * 256), float(c * 256) * m, float(round(cy)))
+    else:
+        from odc.geo.geom import point
+        ll = point(cx, cy, CRS).to_crs("epsg:4326").coords[0]
+        sxs, sys_ = rng.choice([(1, -1), (1, -1), (-1, -1), (-1, -1), (1, 1), (-1, 1)])
+        r = 1 / 256
+        gs = (NYs, NXs, "epsg:4326", sxs * r, 0.0, round((ll[0] - sxs * r * NXs / 2) * 64) / 64, 0.0, sys_ * r,
+              round((ll[1] - sys_ * r * NYs / 2) * 64) / 64)
+    return gd, gs, gen_spec(rng, NYd, NXd, allow_zero=False), gen_spec(rng, NYs, NXs)
+
+
 def exact_st(gd, gs):
     """exact pixel-to-pixel map src_pix = A0 * dst_pix for two axis-aligned grids"""
     _, _, _, ad, _, cd, _, ed, fd = gd
@@ -368,28 +394,22 @@ def gen_cases(out, tier):
         out.count("linear:graph-with-edges" if nonempty else "linear:graph-without-edges")
 
     # ---- general path (rotated same-CRS source, other-CRS source incl. disjoint): oracles replayed
-    for gi in range(24 if not big else 150):
-        NYd, NXd, NYs, NXs = (rng.randint(1, 6) for _ in range(4))
-        gd = (NYd, NXd, CRS, 512.0, 0.0, float(rng.randint(-20, 20) * 256), 0.0, -512.0, float(rng.randint(-20, 20) * 256))
-        cx, cy = gd[5] + rng.uniform(-1, NXd + 1) * 512, gd[8] - rng.uniform(-1, NYd + 1) * 512
-        if rng.random() < 0.3:
-            cx += rng.choice([-1, 1]) * rng.choice([50000, 3000000])        # far away: disjoint
-        if gi % 2 == 0:
-            c, s = rng.choice([(F(3, 5), F(4, 5)), (F(4, 5), F(-3, 5)), (F(12, 13), F(5, 13))])
-            gs = (NYs, NXs, CRS, float(c * 256), float(-s * 256), float(round(cx)), float(s * 256), float(c * 256), float(round(cy)))
-        else:
-            from odc.geo.geom import point
-            ll = point(cx, cy, CRS).to_crs("epsg:4326").coords[0]
-            gs = (NYs, NXs, "epsg:4326", 1 / 256, 0.0, round(ll[0] * 64) / 64, 0.0, -1 / 256, round(ll[1] * 64) / 64)
-        sd, ss = gen_spec(rng, NYd, NXd, allow_zero=False), gen_spec(rng, NYs, NXs)
+    for gi in range(30 if not big else 150):
+        gd, gs, sd, ss = gen_pair_general(rng, gi)
+        NYd, NXd, NYs, NXs = gd[0], gd[1], gs[0], gs[1]
         dst, src = mk_gbt(gd, sd), mk_gbt(gs, ss)
         if dst._check_linear(src) is not None:
             continue
-        if src.base.crs == dst.base.crs:
-            fp = src.base.extent
-        else:
-            fp0 = src.base.footprint(4326, 2) & dst.base.footprint(4326, 2)
-            fp = None if fp0.is_empty else fp0.to_crs(dst.base.crs)
+        try:
+            if src.base.crs == dst.base.crs:
+                fp = src.base.extent
+            else:
+                fp0 = src.base.footprint(4326, 2) & dst.base.footprint(4326, 2)
+                fp = None if fp0.is_empty else fp0.to_crs(dst.base.crs)
+        except Exception:
+            # the footprint oracle itself failed: nothing to replay; the search predicate "general" reports it
+            out.count("general:footprint-oracle-raised(skipped)")
+            continue
 
         def oracle(gbt, q):
             pp = q if q.crs == gbt.base.crs else q.to_crs(gbt.base.crs, check_and_fix=True)
@@ -605,21 +625,9 @@ def search(out, tier):
         k = rng.choice([3, 5, 6, 7, 10])
         gs = (gs[0], gs[1], gs[2], gs[3] * k, 0.0, gs[5], 0.0, gs[7] * k, gs[8])
         run("linear", gd, gs, sd, ss)
-    for gi in range(36 if not big else 250):
-        NYd, NXd, NYs, NXs = (rng.randint(1, 6) for _ in range(4))
-        gd = (NYd, NXd, CRS, 512.0, 0.0, float(rng.randint(-20, 20) * 256), 0.0, -512.0, float(rng.randint(-20, 20) * 256))
-        cx, cy = gd[5] + rng.uniform(-1, NXd + 1) * 512, gd[8] - rng.uniform(-1, NYd + 1) * 512
-        mode = rng.random()
-        if mode < 0.3:
-            cx += rng.choice([-1, 1]) * rng.choice([20000, 100000, 3000000])
-        if gi % 2 == 0:
-            c, s = rng.choice([(0.6, 0.8), (0.8, -0.6), (12 / 13, 5 / 13)])
-            gs = (NYs, NXs, CRS, c * 256, -s * 256, float(round(cx)), s * 256, c * 256, float(round(cy)))
-        else:
-            from odc.geo.geom import point
-            ll = point(cx, cy, CRS).to_crs("epsg:4326").coords[0]
-            gs = (NYs, NXs, "epsg:4326", 1 / 256, 0.0, round(ll[0] * 64) / 64, 0.0, -1 / 256, round(ll[1] * 64) / 64)
-        run("general", gd, gs, gen_spec(rng, NYd, NXd, allow_zero=False), gen_spec(rng, NYs, NXs))
+    for gi in range(50 if not big else 300):
+        gd, gs, sd, ss = gen_pair_general(rng, gi, exact_rot=False)
+        run("general", gd, gs, sd, ss)
 
 
 # ---------------------------------------------------------------- entry points
